@@ -18,6 +18,7 @@ import re
 import shutil
 
 import common
+import stepcontrol
 from common import MachineryError
 
 LEVEL = "model_checking"
@@ -288,6 +289,8 @@ def run(tier, rep):
             rep.violation("crash:trace", "real code crashed (signal %d) in an integrate() scenario" % -r.returncode, {"stderr": r.stderr[-2000:]})
             return
         raise MachineryError("trace worker failed: %s" % r.stderr[-3000:])
+    # the IAS15 step-size controller: model, decision table, recorded attempts
+    stepcontrol.run(rep, tier, sc)
     meta = json.load(open(os.path.join(td, "meta.json")))
     if not os.path.getsize(os.path.join(sc, "hook_trace.txt")):
         raise MachineryError("no hook output (hook layer not compiled in?)")
